@@ -903,4 +903,32 @@ pub mod vx_export {
         }
         Ok(bad)
     }
+
+    /// C01 / C11 (retry after an interrupted commit): a publish whose records all reached storage EXCEPT the epoch record (emulated by
+    /// restoring the previous epoch record) is retried with the same batch. The retry must create the epoch (it changes values as far as
+    /// the directory's epoch record knows) and end at the canonical root of that history. Returns what went wrong, if anything.
+    pub async fn c01_retry_after_interrupted_commit<TC: Configuration>() -> Result<Option<String>, AkdError> {
+        let vrf = HardCodedAkdVRF {};
+        let ck = TC::hash(&vrf.retrieve().await?);
+        let db = AsyncInMemoryDatabase::new();
+        let dir = Directory::<TC, _, _>::new(StorageManager::new_no_cache(db.clone()), vrf.clone(), AzksParallelismConfig::disabled()).await?;
+        let kv = |k: &str, v: &str| (AkdLabel::from(k), AkdValue::from(v));
+        dir.publish(vec![kv("a", "a1"), kv("b", "b1")]).await?;
+        let checkpoint = dir.retrieve_azks().await?;
+        let batch = vec![kv("a", "a2"), kv("c", "c1")];
+        dir.publish(batch.clone()).await?;
+        db.set(DbRecord::Azks(checkpoint)).await.map_err(AkdError::Storage)?;      // the epoch record of epoch 2 never made it
+        let dir2 = Directory::<TC, _, _>::new(StorageManager::new_no_cache(db.clone()), vrf.clone(), AzksParallelismConfig::disabled()).await?;
+        let r = dir2.publish(batch).await?;
+        if r.epoch() != 2 { return Ok(Some(format!("the retried publish returned epoch {} (the epoch record said 1, the batch changes values: epoch 2 is required)", r.epoch()))); }
+        let mut leaves = vec![];
+        for (name, ver, val, ep) in [("a", 1u64, "a1", 1u64), ("b", 1, "b1", 1), ("a", 2, "a2", 2), ("c", 1, "c1", 2)] {
+            let l = vrf.get_node_label::<TC>(&AkdLabel::from(name), VersionFreshness::Fresh, ver).await?;
+            leaves.push((l, TC::compute_fresh_azks_value(&ck, &l, ver, &AkdValue::from(val)), ep));
+        }
+        let sl = vrf.get_node_label::<TC>(&AkdLabel::from("a"), VersionFreshness::Stale, 1).await?;
+        leaves.push((sl, TC::stale_azks_value(), 2));
+        if r.hash() != c01_root_hash::<TC>(&leaves) { return Ok(Some("after the retry the root hash is not the canonical one for the history".to_string())); }
+        Ok(None)
+    }
 }
